@@ -4,6 +4,8 @@ import (
 	"bytes"
 	"encoding/json"
 	"fmt"
+	"net"
+	"net/http"
 	"reflect"
 	"sort"
 	"strconv"
@@ -15,6 +17,10 @@ import (
 	"pgregory.net/rapid"
 
 	"github.com/honeycombio/refinery/config"
+	"github.com/honeycombio/refinery/logger"
+	"github.com/honeycombio/refinery/metrics"
+	"github.com/honeycombio/refinery/transmit"
+	"github.com/honeycombio/refinery/types"
 	"github.com/honeycombio/refinery/verifharness/vkit"
 )
 
@@ -76,7 +82,7 @@ var c19Datasets = []string{"ds", "Prod-1", "my%20data", "a%2Fb", "team+checkout"
 func c19PathDecode(seg string) string {
 	var b []byte
 	for i := 0; i < len(seg); i++ {
-		if seg[i] == '%' && i+2 < len(seg)+0 && i+2 <= len(seg)-1+0 {
+		if seg[i] == '%' && i+2 < len(seg) {
 			if v, err := strconv.ParseUint(seg[i+1:i+3], 16, 8); err == nil {
 				b = append(b, byte(v))
 				i += 2
@@ -343,6 +349,22 @@ func c19ClientFields(m map[string]any) map[string]any {
 	return o
 }
 
+// c19HopTx records what the router hands to the peer transmission and then lets
+// the real DirectTransmission carry it to the owning node.
+type c19HopTx struct {
+	rec  *rtRecorder
+	real *transmit.DirectTransmission
+}
+
+func (t *c19HopTx) EnqueueEvent(ev *types.Event) {
+	t.rec.add("peer-event", ev)
+	t.real.EnqueueEvent(ev)
+}
+func (t *c19HopTx) EnqueueSpan(sp *types.Span) {
+	t.rec.add("peer-span", sp.Event)
+	t.real.EnqueueSpan(sp)
+}
+
 func execC19(c c19Case) vkit.Result {
 	var res vkit.Result
 	defer rtScrub(&res)
@@ -362,6 +384,7 @@ func execC19(c c19Case) vkit.Result {
 	var peerTx transmit.Transmission = &rtRecTransmission{"peer", rec}
 	recB := &rtRecorder{}
 	var hopDT *transmit.DirectTransmission
+	stopDT := func() {}
 	if c.Hop {
 		// node B owns everything it is sent
 		cfgB := &config.MockConfig{
@@ -388,13 +411,13 @@ func execC19(c c19Case) vkit.Result {
 			return res
 		}
 		stopped := false
-		stopDT := func() {
+		stopDT = func() {
 			if !stopped {
 				stopped = true
 				hopDT.Stop() // flushes every pending batch and waits for the answers
 			}
 		}
-		defer stopDT()
+		defer func() { stopDT() }()
 		peerTx = &c19HopTx{rec: rec, real: hopDT}
 		res.Class("real-peer-hop")
 	}
@@ -446,6 +469,17 @@ func execC19(c c19Case) vkit.Result {
 		if resp.Status != 200 {
 			res.Class("request-not-200")
 		}
+	}
+
+	stopDT() // real hop: every forwarded batch has been answered by node B after this
+	atOwner := map[string][]rtSnap{}
+	for _, s := range recB.all() {
+		vid, _ := s.Fields["vid"].(string)
+		if _, ok := all[vid]; !ok {
+			res.Violate("C19/foreign-hop/phantom-event", "owner node: %s received an event that matches no event sent (vid=%v dataset=%q)", s.Via, s.Fields["vid"], s.Dataset)
+			continue
+		}
+		atOwner[vid] = append(atOwner[vid], s)
 	}
 
 	byVid := map[string][]rtSnap{}
@@ -510,28 +544,28 @@ func execC19(c c19Case) vkit.Result {
 		if wantRate == 0 {
 			wantRate = 1
 		}
-		attrs := func(s *rtSnap, full bool) {
+		attrs := func(tag string, s *rtSnap, full bool) {
 			if s.SampleRate != wantRate {
-				res.Violate("C19/"+route+"/sample-rate", "%s: sample rate %d became %d", where, wantRate, s.SampleRate)
+				res.Violate("C19/"+tag+"/sample-rate", "%s: sample rate %d became %d", where, wantRate, s.SampleRate)
 			}
 			if !full {
 				return
 			}
 			if s.APIKey != sn.req.Key {
-				res.Violate("C19/"+route+"/api-key", "%s: API key %q became %q", where, sn.req.Key, s.APIKey)
+				res.Violate("C19/"+tag+"/api-key", "%s: API key %q became %q", where, sn.req.Key, s.APIKey)
 			}
 			if s.Dataset != sn.dataset {
-				res.Violate("C19/"+route+"/dataset", "%s: dataset %q became %q", where, sn.dataset, s.Dataset)
+				res.Violate("C19/"+tag+"/dataset", "%s: dataset %q became %q", where, sn.dataset, s.Dataset)
 			}
 			if e.TimeNs != 0 && !s.Timestamp.Equal(time.Unix(0, e.TimeNs)) {
-				res.Violate("C19/"+route+"/timestamp", "%s: timestamp %s became %s", where, time.Unix(0, e.TimeNs).UTC().Format(time.RFC3339Nano), s.Timestamp.UTC().Format(time.RFC3339Nano))
+				res.Violate("C19/"+tag+"/timestamp", "%s: timestamp %s became %s", where, time.Unix(0, e.TimeNs).UTC().Format(time.RFC3339Nano), s.Timestamp.UTC().Format(time.RFC3339Nano))
 			}
 			want, got := c19ClientFields(sn.data), c19ClientFields(s.Fields)
 			if !reflect.DeepEqual(want, got) {
-				res.Violate("C19/"+route+"/fields", "%s: fields %v became %v", where, c19Show(want), c19Show(got))
+				res.Violate("C19/"+tag+"/fields", "%s: fields %v became %v", where, c19Show(want), c19Show(got))
 			}
 			if s.Probe {
-				res.Violate("C19/"+route+"/marked-probe", "%s was forwarded marked as a probe", where)
+				res.Violate("C19/"+tag+"/marked-probe", "%s was forwarded marked as a probe", where)
 			}
 		}
 
@@ -542,7 +576,7 @@ func execC19(c c19Case) vkit.Result {
 			}
 		case "notrace":
 			if s := expectOne("upstream-event", "upstream-span"); s != nil {
-				attrs(s, false)
+				attrs(route, s, true)
 				if s.APIHost != fake.URL {
 					res.Violate("C19/notrace/destination", "%s: sent to %q instead of the Honeycomb API", where, strings.Replace(s.APIHost, fake.URL, "<api>", 1))
 				}
@@ -552,14 +586,34 @@ func execC19(c c19Case) vkit.Result {
 			if sn.listener == "peer" {
 				want = "collector-peer"
 			}
-			if s := expectOne(want); s != nil && s.TraceID != id {
-				res.Violate("C19/own/trace-id", "%s: collector got trace id %q", where, s.TraceID)
+			if s := expectOne(want); s != nil {
+				attrs(route, s, true)
+				if s.TraceID != id {
+					res.Violate("C19/own/trace-id", "%s: collector got trace id %q", where, s.TraceID)
+				}
 			}
 		case "foreign":
 			if s := expectOne("peer-event", "peer-span"); s != nil {
-				attrs(s, true)
+				attrs(route, s, true)
 				if s.APIHost != otherAddr {
 					res.Violate("C19/foreign/destination", "%s: forwarded to %q, owner is %q", where, s.APIHost, otherAddr)
+				}
+			}
+			if c.Hop {
+				// the same span as the owning node's router took it in
+				got := atOwner[vid]
+				switch {
+				case len(got) == 0:
+					res.Class("hop-delivery-missing") // delivery itself is C26's subject
+				case len(got) > 1:
+					res.Violate("C19/foreign-hop/handled-more-than-once", "%s: the owner handled it %d times", where, len(got))
+				case got[0].Via != "collector-peer":
+					res.Violate("C19/foreign-hop/wrong-path/"+got[0].Via, "%s: at the owner it went to %s, expected collector-peer", where, got[0].Via)
+				default:
+					attrs("foreign-hop", &got[0], true)
+					if got[0].TraceID != id {
+						res.Violate("C19/foreign-hop/trace-id", "%s: the owner saw trace id %q", where, got[0].TraceID)
+					}
 				}
 			}
 		case "stress":
@@ -584,6 +638,14 @@ func execC19(c c19Case) vkit.Result {
 			}
 		}
 	}
+	for _, vid := range order {
+		e := all[vid].ev
+		id := c19TraceID(e)
+		isForeignRoute := e.Probe != "true" && id != "" && c19Foreign(id) && !(c.Stressed && func() bool { p, _ := c19Immediate(id); return p }())
+		if !isForeignRoute && len(atOwner[vid]) > 0 {
+			res.Violate("C19/foreign-hop/unexpected-at-owner", "event %s (trace %q, probe=%q, stressed=%v) is not a forwarded foreign span, yet the owner node handled it via %s", vid, id, e.Probe, c.Stressed, atOwner[vid][0].Via)
+		}
+	}
 	for _, m := range classesInReq {
 		if len(m) >= 3 {
 			res.NonTrivial = true
@@ -603,11 +665,12 @@ func c19Show(m map[string]any) string {
 func TestC19(t *testing.T) {
 	vkit.Run(t, vkit.Spec[c19Case]{
 		ID:   "C19",
-		Rule: "fresh incoming+peer Router per case with recording upstream/peer transmissions, recording collector (stress state and immediate decisions scripted by trace id) and a stub sharder (trace ids starting with f are foreign); 1-3 requests per case on /1/events and /1/batch, JSON or msgpack, plain/gzip/zstd, legacy and environment keys, escaped dataset names; 1-6 events per batch drawn from {no trace field, empty trace id, own trace, foreign trace} x {probe true/false/absent} with three trace-id field names. Every event carries a unique id; oracle = partition: each event is found in exactly the one sink its class prescribes (probe: none), no sink holds an unknown event, forwarded copies keep key, dataset, sample rate, timestamp and client fields. Non-trivial: one request whose events take >= 3 different routes.",
+		Rule: "fresh incoming+peer Router per case with recording upstream/peer transmissions, recording collector (stress state and immediate decisions scripted by trace id) and a stub sharder (trace ids starting with f are foreign); 1-3 requests per case on /1/events and /1/batch, JSON or msgpack, plain/gzip/zstd, legacy and environment keys, 20 dataset path segments (literal '+', %2B, %20, %2F, %25, %26, %3D, %3F, %23, UTF-8, dots, sub-delims; no dot segments); in a third of the cases the peer transmission is a real DirectTransmission into the peer listener of a second node that owns the foreign traces; 1-6 events per batch drawn from {no trace field, empty trace id, own trace, foreign trace} x {probe true/false/absent} with three trace-id field names. Every event carries a unique id; oracle = partition: each event is found in exactly the one sink its class prescribes (probe: none), no sink holds an unknown event, every sink (upstream, collector, peer transmission, and the owning node's collector after the real hop) sees the key, dataset (RFC 3986 path-segment decoding of what the client addressed, written independently), sample rate, timestamp and client fields the client sent. Non-trivial: one request whose events take >= 3 different routes.",
 		Assumptions: []string{
 			"OTLP ingestion is not part of this check (field translation belongs to C20/C23); events arrive on /1/events and /1/batch",
 			"client fields are compared by value with numbers as float64; names under meta. are refinery's own and excluded",
 			"under stress a span the collector decided immediately may additionally produce a probe to the owning peer (C16's subject); anything else besides the immediate decision is a second route",
+			"delivery across the real hop is flushed with DirectTransmission.Stop(); a span that does not arrive is counted (hop-delivery-missing), not judged (C26); dot-segment datasets are excluded (known C26/misaddressed/dot-segment-dataset)",
 			"timestamps are sent as RFC3339Nano / msgpack timestamps only (epoch-number headers are C22's subject)",
 		},
 		Gen:  genC19,
